@@ -25,6 +25,10 @@ import (
 
 func init() { subs["c11"] = c11 }
 
+// the listing page size used by a commit is not part of the contract: what is merged does not depend on it
+var c11Pages = []int{1024, 1, 2, 4, 5, 8, 3}
+var c11Page int
+
 type c11Up struct {
 	path, hash string
 	size       uint64
@@ -453,7 +457,8 @@ func c11Commit(env *corekit.Env, repo, diamondID string, mode model.ConflictMode
 	d := core.NewDiamond(repo, env.Stores,
 		core.DiamondDescriptor(model.NewDiamondDescriptor(model.DiamondID(diamondID), model.DiamondMode(mode))),
 		core.DiamondMessage("verif"), core.DiamondLogger(corekit.Nop))
-	err := corekit.Recover(func() error { return d.Commit() })
+	c11Page++
+	err := corekit.Recover(func() error { return d.Commit(core.BatchSize(c11Pages[c11Page%len(c11Pages)])) })
 	if err != nil {
 		if corekit.ErrClass(err) == "panic" {
 			return "panic"
